@@ -9,39 +9,39 @@ HOOK_COMMITS = subprocess.run(
 TECH = "deterministic simulation with fault injection: seeded search over schedules / completion orders / workloads under an owned scheduler (shuttle mechanism, own choice-stream policy), reference-model oracles over the recorded history"
 
 CLAIMED = {
- "C01": ("exploration", "5.C01", "the real HybridCache (memory -> keeper -> block engine with flushers, reclaimers, recovery, tombstone log) over the simulated device, one sequential client plus foyer's background tasks; every interleaving of the client with eviction hand-off, flusher batching, device completion order, reclaim, and graceful restarts is a scheduler/io decision; every value is tagged (key, version), every lookup result is judged inline against the sequential reference model with the property's exclusions (overload sheds per key).",
-         "value oracle needs self-describing values (>= 20 bytes); empty values are not part of the workload; multi-client hybrid histories are not claimed"),
- "C15": ("exploration", "5.C15", "short histories ending in close() (+ optional writes to fresh keys / repeated close) and reopen on the same simulated image, both policies, flush_on_close on/off; entries resident at close must be retrievable with their latest value after real recovery; nothing may be handed to the disk tier by close() when flushing is off, by a repeated close(), or after close() returned.",
+ "C01": ("exploration", "5.C01", "the real HybridCache (memory -> keeper -> block engine with flushers, reclaimers, recovery, tombstone log) over the simulated device, one sequential client plus foyer's background tasks; every interleaving of the client with eviction hand-off, flusher batching, device completion order, reclaim, and graceful restarts is a scheduler/io decision; every value is tagged (key, version), every lookup result is judged inline against the sequential reference model with the property's exclusions (overload sheds per key). In half of the runs a second foreground client works concurrently on its own keys (evictions land inside the first client's operations), and flushing is held for stretches of operations (versions that exist only in the write queue).",
+         "value oracle needs self-describing values (>= 20 bytes); empty values are not part of the workload; two clients on the SAME key across the tiers are not explored"),
+ "C15": ("exploration", "5.C15", "short histories ending in close() (+ optional writes to fresh keys / repeated close) and reopen on the same simulated image, both policies, flush_on_close on/off; entries resident at close must be retrievable with their latest value after real recovery; nothing may be handed to the disk tier by close() when flushing is off, by a repeated close(), or after close() returned. A fifth of the runs drop the last handle instead of closing (the harness waits for the background close task); a quarter mix in oversize values and a small write-queue threshold: a shed at the threshold only excuses a loss if the bytes submitted since the last completed wait() can exceed it.",
          "devices are sized so that no reclaim happens in C15 cases (the property's own exclusion); post-close writes only touch fresh keys"),
- "C16": ("exploration", "5.C16", "listener, weighter, memory filter, storage filters and the destructors of keys and values first read the per-task count of held foyer locks (a direct, timing-free detector) and then re-enter the same single-shard cache; shuttle's non-reentrant locks turn a callback under a write lock into an immediate deadlock report; multi-client runs look for lock-order cycles.",
+ "C16": ("exploration", "5.C16", "listener, weighter, memory filter, storage filters and the destructors of keys and values first read the per-task count of held foyer locks (a direct, timing-free detector) and then re-enter the same single-shard cache; shuttle's non-reentrant locks turn a callback under a write lock into an immediate deadlock report; multi-client runs look for lock-order cycles. A quarter of the runs have no event listener; a destructor deadlocking under a lock aborts the process and is reported by the supervising parent.",
          "locks counted are the ones foyer takes through the verif shims (all parking_lot/std locks of foyer-memory and foyer-storage); mea's async mutex in the tombstone log is not counted"),
- "C02": ("exploration", "5.C02", "seeded search over thread interleavings of 2-4 client threads (plus foyer's own fetch tasks and resize threads) against the real Cache for all five algorithms; per-key Wing-Gong linearizability search against an atomic register whose reads may miss; handles re-read at quiescence. Sampling, not proof.",
+ "C02": ("exploration", "5.C02", "seeded search over thread interleavings of 2-4 client threads (plus foyer's own fetch tasks and resize threads) against the real Cache for all five algorithms; per-key Wing-Gong linearizability search against an atomic register whose reads may miss; handles re-read at quiescence. Sampling, not proof. A fetch whose round an explicit insert closed before its origin resolved never writes; a tenth of the runs contend one key with fetch rounds that get closed and reopened.",
          "shuttle explores SeqCst only; histories <= 22 ops per key; capacity eviction modelled as 'reads may miss'"),
- "C03": ("fault_enumeration", "5.C03", "real workloads (all compression modes, tombstone log on/off, with reclaim so older generations exist) run to a graceful close; then one recovery per fault on the closed image: for pages that hold data x {bit flip, zeroed page, swap within a block, swap with the same page of another block, each older generation of the page} plus structure-aware bit flips (one inside every field of the entry headers, blob indexes and tombstones an independent parser locates on the page) plus random multi-fault sets (thorough: every such page x every kind; quick: a sample); each recovery is a fresh simulated execution that reopens in Quiet mode and reads every key; also live corruption (reads return flipped / zeroed / misdirected bytes or fail) in running stores. A lookup must give a miss, an error or a value that was stored for that key at some time; reopen must complete.",
+ "C03": ("fault_enumeration", "5.C03", "real workloads (all compression modes, tombstone log on/off, with reclaim so older generations exist) run to a graceful close; then one recovery per fault on the closed image: for pages that hold data x {bit flip, zeroed page, swap within a block, swap with the same page of another block, each older generation of the page} plus structure-aware bit flips (one inside every field of the entry headers, blob indexes and tombstones an independent parser locates on the page) plus random multi-fault sets (thorough: every such page x every kind; quick: a sample); each recovery is a fresh simulated execution that reopens in Quiet mode and reads every key; also live corruption (reads return flipped / zeroed / misdirected bytes or fail) in running stores. A lookup must give a miss, an error or a value that was stored for that key at some time; reopen must complete. A full-index variant fills a two-page blob index completely and flips every index field and each low bit of the count. A run that aborts the process (absurd allocation) is a violation, reported by the supervising parent.",
          "4 KiB pages are the unit of damage; live read faults are not injected while the store is opening"),
- "C04": ("fault_enumeration", "5.C04", "hybrid workloads of inserts, overwrites, deletes and waits end in process death; one recovery per crash point: the image is the issue-order prefix of the device write log plus a page-granular tear of the next write (thorough: every write boundary, every tear subset for writes of <= 6 pages, samples above; quick: 8 points per run); each recovery is a fresh simulated execution running the real recovery code, then every key is read. Always: miss or a version really inserted for that key. While no block was reclaimed before the crash point: the latest operation on the key that was handed to the disk tier, not shed, and covered by a completed wait() bounds the result (that version or newer; miss-or-newer for a delete with the tombstone log). Repeated cycles: after a share of the recoveries the recovered store is written again (new versions, deletes, evict_all + wait), dies a second time at a prefix of those writes and is recovered once more; versions flushed after the restart must supersede everything from before it.",
-         "crash states are issue-order prefixes (the statement's wording); acknowledgements are taken from the recorded wait()/close() returns and the submission probes; a big-blob variant reaches two-page blob indexes"),
- "C05": ("exploration", "5.C05", "operation-by-operation reference-model check (single client, every step a quiescent point: usage/entries vs findable entries, eviction minimality and bound per insert from on_leave events, clear, resize, shard-capacity sum) plus multi-client runs checked at quiescence by an actual lookup sweep.",
+ "C04": ("fault_enumeration", "5.C04", "hybrid workloads of inserts, overwrites, deletes and waits end in process death; one recovery per crash point: the image is the issue-order prefix of the device write log plus a page-granular tear of the next write (thorough: every write boundary, every tear subset for writes of <= 6 pages, samples above; quick: 8 points per run); each recovery is a fresh simulated execution running the real recovery code, then every key is read. Always: miss or a version really inserted for that key. While no block was reclaimed before the crash point: the latest operation on the key that was handed to the disk tier, not shed, and covered by a completed wait() bounds the result (that version or newer; miss-or-newer for a delete with the tombstone log). Repeated cycles: after a share of the recoveries the recovered store is written again (new versions, deletes, evict_all + wait), dies a second time at a prefix of those writes and is recovered once more; versions flushed after the restart must supersede everything from before it. A second family of crash points goes by completion state: every write the device had acknowledged when write m was issued plus any subset of the writes then in flight.",
+         "crash states are issue-order prefixes (the statement's wording) and completion-state subsets; acknowledgements are taken from the recorded wait()/close() returns and the submission probes; a big-blob variant reaches two-page blob indexes"),
+ "C05": ("exploration", "5.C05", "operation-by-operation reference-model check (single client, every step a quiescent point: usage/entries vs findable entries, eviction minimality and bound per insert from on_leave events, clear, resize, shard-capacity sum) plus multi-client runs checked at quiescence by an actual lookup sweep. A quarter of the runs contain abandoned fetches (the caller drops the future; the reference reserved for the closed waiter must be given back).",
          "the schedule dimension only matters for the multi-client and resize parts; weights 0..5, capacities 0..10, shards 1..4"),
- "C06": ("exploration", "5.C06", "2-5 overlapping callers per key with harness-controlled origins (ok / error / preempted), concurrent insert / remove / fetch-task cancellation; oracle: at most one origin per key at a time, every caller answered (deadlock / step bound = violation), answers explained by an origin of their round, failed fetch caches nothing. Memory-only and hybrid variants.",
+ "C06": ("exploration", "5.C06", "2-5 overlapping callers per key with harness-controlled origins (ok / error / preempted), concurrent insert / remove / fetch-task cancellation; oracle: at most one origin per key at a time, every caller answered (deadlock / step bound = violation), answers explained by an origin of their round, failed fetch caches nothing. Memory-only and hybrid variants. Includes a first round closed by an explicit insert while its (often failing) origin is still resolving, followed by a second round of the key: the late error must not reach the second round.",
          "origin futures are harness futures; cancellation = abort of the spawned fetch task at its next poll"),
- "C07": ("exploration", "5.C07", "forced storage-writer inserts of exact page counts (1 page .. the per-entry maximum and one beyond), batches separated by waits or not (so blobs continue across batches and batches span blocks), buffers from barely one entry to several blocks, 1-3 flushers, reclaim and reuse, reopen; at every quiescent point three views must agree: the write log parsed by an independent parser (entries written in each block's current generation), the image scanned from offset 0 by the same independent parser following blob indexes (alignment, containment, disjointness), and foyer's own view (every key may_contains claims loads; after reopen every newest intact entry of the image that no tombstone covers is indexed).",
+ "C07": ("exploration", "5.C07", "forced storage-writer inserts of exact page counts (1 page .. the per-entry maximum and one beyond), batches separated by waits or not (so blobs continue across batches and batches span blocks), buffers from barely one entry to several blocks, 1-3 flushers, reclaim and reuse, reopen; at every quiescent point three views must agree: the write log parsed by an independent parser (entries written in each block's current generation), the image scanned from offset 0 by the same independent parser following blob indexes (alignment, containment, disjointness), and foyer's own view (every key may_contains claims loads; after reopen every newest intact entry of the image that no tombstone covers is indexed). The independent scan applies the format's sequence rule; after a reopen whatever the disk tier serves must be the newest entry alive in the image. A big-block variant (1 MiB blocks, one-page entries) fills a blob index exactly at a batch boundary, continues with a second blob and ends the new data of a reused block at an old blob index.",
          "identity hasher; clear() is excluded (destroy() does not reset the flushers' write positions)"),
  "C08": ("exploration", "5.C08", "typed runs (u64/String keys; Vec<u8>, Bytes, String, bool and every numeric type at boundary values as values; lengths 0 .. beyond the per-entry maximum, compressible and incompressible, None/Zstd/Lz4) pushed through the real serializer, flush buffer, splitter and device with buffers down to less than one entry; read back from the write queue, from disk and after recovery: equal to what was stored (or to an older write of the same key), header lengths equal the encoded lengths, entries that do not fit are rejected as a whole (shed event, no index entry), serializer failures are the size-limit error. Two builds of the simulator share the budget: foyer's default codec and foyer with the `serde` feature (blanket bincode implementation of Code). Compression is set on the engine through a guarded hook (the store builder's setting never reaches the engine at this commit); for compressed entries the first value_len bytes of the body must decompress to exactly the encoded value.",
          "the pure numeric codec table is exercised only through these values"),
  "C09": ("exploration", "5.C09", "sustained insert load of 3-8 device capacities (mixed sizes, overwrites, deletes) on devices down to the smallest configuration the engine accepts without warning, flushers 1-3, reclaimers 1-2, reinsertion none / a key class; device-level invariants on every applied write (no overlap within a block generation, blob index rewritten only with a superset, first write after a clean at the block start, no overlapping in-flight writes), C01's value oracle alongside, final wait()/close() must return (deadlock or step bound = violation), reinsertion-class entries loadable after their block's reclaim once the device is idle, single-flusher single-reclaimer runs reclaim in fill order.",
          "write-on-insertion policy only (no background hand-offs); fill order is issue order"),
- "C10": ("fault_enumeration", "5.C10", "histories with up to several tombstone-log pages of deletes (beyond the 256 slots of one page, below the log capacity), re-inserts, and 1-4 restart cycles (graceful, or process death after wait()) with further deletes in each cycle, flusher counts 1-3; after every restart each real key is read and judged by the value oracle: a key whose delete was flushed reads absent, a re-inserted key is not hidden.",
+ "C10": ("fault_enumeration", "5.C10", "histories with up to several tombstone-log pages of deletes (beyond the 256 slots of one page, below the log capacity), re-inserts, and 1-4 restart cycles (graceful, or process death after wait()) with further deletes in each cycle, flusher counts 1-3; after every restart each real key is read and judged by the value oracle: a key whose delete was flushed reads absent, a re-inserted key is not hidden. A flushed insert must not be hidden after a restart (first lookup hits); a wrap variant overflows a one-page log.",
          "crash points are restricted to moments right after a completed wait() (torn tombstone pages are covered by C04's crash enumeration); one real key universe of 16-48 keys plus filler deletes"),
- "C11": ("exploration", "5.C11", "every ordering of {fetch starts, explicit insert completes, origin resolves ok/err (with a preemption point inside its final poll), further lookups} for 1-3 waiters, all algorithms; premise evaluated on event sequence numbers; late result must never be delivered or cached.",
+ "C11": ("exploration", "5.C11", "every ordering of {fetch starts, explicit insert completes, origin resolves ok/err (with a preemption point inside its final poll), further lookups} for 1-3 waiters, all algorithms; premise evaluated on event sequence numbers; late result must never be delivered or cached. The hybrid round also runs with on-disk advised keys, with the key in the disk write queue (flushing held) and with a second fetch round; phantom inserts are judged; no later lookup sees the version the key had on disk before the round.",
          "origin futures are harness futures with a sync preemption point in their last poll"),
- "C12": ("exploration", "5.C12", "short hybrid histories (each placement advice, get, get_or_fetch hit/miss, evictions, close) under both policies, admission admit / reject / throttle, probation-marking pickers; every device data write is parsed by an independent parser and attributed to (key, version, engine sequence); licences are derived from the recorded inserts / fresh fetches / evictions (with the age the looked-up handle reported); unlicensed writes, missing licensed writes (by the next wait/close after submission), in-memory-only entries on disk, on-disk-advised entries resident in memory and origin polls while the disk lookup is held are violations.",
+ "C12": ("exploration", "5.C12", "short hybrid histories (each placement advice, get, get_or_fetch hit/miss, evictions, close) under both policies, admission admit / reject / throttle, probation-marking pickers; every device data write is parsed by an independent parser and attributed to (key, version, engine sequence); licences are derived from the recorded inserts / fresh fetches / evictions (with the age the looked-up handle reported); unlicensed writes, missing licensed writes (by the next wait/close after submission), in-memory-only entries on disk, on-disk-advised entries resident in memory and origin polls while the disk lookup is held are violations. Between two reclaims the disk hits reported Age::Old come from at most floor(ratio x blocks) distinct blocks (FIFO picker); a wrap variant overwrites a small device with a third of the blocks on probation.",
          "compression off in C12 cases so that values are readable in the write log; a hand-over counts from the submission probe (foyer_verif hook)"),
- "C13": ("exploration", "5.C13", "conservation over the recorded listener / pipe events: every admitted version leaves exactly once with the matching reason, never before a lookup that still finds it, Evict leavers (incl. evict_all, flush, resize, disk-only drop) offered to the pipe exactly once, others never; single- and multi-client, cache drop included.",
+ "C13": ("exploration", "5.C13", "conservation over the recorded listener / pipe events: every admitted version leaves exactly once with the matching reason, never before a lookup that still finds it, Evict leavers (incl. evict_all, flush, resize, disk-only drop) offered to the pipe exactly once, others never; single- and multi-client, cache drop included. A listener-free view samples the findable set after every operation of single-client runs (evicted entries offered exactly once, removed / replaced ones never); a quarter of those runs install no listener; the pipe hands disk-only pieces back (insert_piece).",
          "recording EventListener and Pipe; phantom (disk-only / filter-rejected) entries are judged on the pipe offer only"),
  "C17": ("exploration", "5.C17", "keys built to collide (all 64 bits, or same shard) under a harness hasher; memory: linearizability per key plus 'nothing lost with ample capacity'; hybrid: value oracle of C01 incl. write queue and restart.",
          "collisions are produced by a user-supplied BuildHasher, as the property stipulates"),
- "C18": ("exploration", "5.C18", "handles re-read at every quiescent point; LRU pin intervals (from lookup handles) vs on_leave(Evict); release + one insert per shard must restore the capacity bound; is_outdated compared with an actual lookup (final) and with the sequential model (stepwise).",
+ "C18": ("exploration", "5.C18", "handles re-read at every quiescent point; LRU pin intervals (from lookup handles) vs on_leave(Evict); release + one insert per shard must restore the capacity bound; is_outdated compared with an actual lookup (final) and with the sequential model (stepwise). Includes abandoned fetches (closed waiter channels must not leak the reserved reference).",
          "pin intervals start when the harness logged the lookup's return (never wider than reality)"),
 }
 
